@@ -360,16 +360,17 @@ def _levels(triples, nlevels):
     return "|".join(out)
 
 
-def tables_wire(facts, decoded):
-    """facts of vlib/tables.py (bash: base 0) -> the wire form of BashRt.Tables"""
+def tables_wire(facts, decoded, assoc=True):
+    """facts of vlib/tables.py (bash: base 0) -> the wire form of BashRt.Tables; assoc=True lists the entries of
+    command / within-word rows in the order bash iterates over the keys, assoc=False in the order of the script line"""
     lits = sorted((f for f in facts if f[0] == "lit"), key=lambda f: f[1])
     mx = max([f[1] for f in facts if f[0] == "max"] + [0])
     nl = mx + 1
     parts = ["lits=" + ",".join(core.hexs(decoded[f[2]]) for f in lits),
              "lt=" + _rows([(f[1], f[2], f[3]) for f in facts if f[0] == "mL"]),
-             "ct=" + _rows([(f[1], f[2], f[3]) for f in facts if f[0] == "mC"], assoc_order=True),
+             "ct=" + _rows([(f[1], f[2], f[3]) for f in facts if f[0] == "mC"], assoc_order=assoc),
              "st=" + ",".join(f"{f[1]}>{f[2]}" for f in facts if f[0] == "mX"),
-             "wt=" + _rows([(f[1], f[2], f[3]) for f in facts if f[0] == "mW"], assoc_order=True),
+             "wt=" + _rows([(f[1], f[2], f[3]) for f in facts if f[0] == "mW"], assoc_order=assoc),
              "ll=" + _levels([(f[1], f[2], f[3]) for f in facts if f[0] == "cL"], nl),
              "cl=" + _levels([(f[1], f[2], f[3]) for f in facts if f[0] == "cC"], nl),
              "wl=" + _levels([(f[1], f[2], f[3]) for f in facts if f[0] == "cW"], nl),
